@@ -66,6 +66,29 @@ class _Global(ast.NodeTransformer):
                 out.extend(st)
             elif st is not None:
                 out.append(st)
+        # G19: `xs.extend([E for v in I if C])` / `xs += [E for v in I if C]` -> `for v in I: if C: xs.append(E)`
+        ext_: list[ast.stmt] = []
+        for st in out:
+            comp = None
+            if isinstance(st, ast.Expr) and isinstance(st.value, ast.Call) and isinstance(st.value.func, ast.Attribute) and st.value.func.attr == "extend" \
+                    and isinstance(st.value.func.value, ast.Name) and len(st.value.args) == 1 and not st.value.keywords:
+                comp, acc = st.value.args[0], st.value.func.value.id
+            elif isinstance(st, ast.AugAssign) and isinstance(st.op, ast.Add) and isinstance(st.target, ast.Name):
+                comp, acc = st.value, st.target.id
+            if isinstance(comp, (ast.ListComp, ast.GeneratorExp)) and len(comp.generators) == 1 and not comp.generators[0].is_async \
+                    and not any(isinstance(x, ast.Name) and x.id == acc for x in ast.walk(comp)):
+                g = comp.generators[0]
+                app = ast.Expr(value=ast.Call(func=ast.Attribute(value=ast.Name(id=acc, ctx=ast.Load()), attr="append", ctx=ast.Load()), args=[comp.elt], keywords=[]))
+                body = [app]
+                if g.ifs:
+                    body = [ast.If(test=g.ifs[0] if len(g.ifs) == 1 else ast.BoolOp(op=ast.And(), values=list(g.ifs)), body=[app], orelse=[])]
+                loop = ast.For(target=g.target, iter=g.iter, body=body, orelse=[])
+                for x in ast.walk(loop):
+                    ast.copy_location(x, st)
+                ext_.append(loop)
+            else:
+                ext_.append(st)
+        out = ext_
         # G14: `return A if c else B` -> `if c: return A` ; `return B`
         exp_: list[ast.stmt] = []
         for st in out:
